@@ -159,7 +159,7 @@ def numerals(ctx, nfields):
     ctx.prove(tt == {34816: "/dev/pts/0", 34817: "/dev/pts/1", 1025: "/dev/tty1"}.get(tty), "terminal", detail=f"{tty} -> {tt}")
 
 
-@harness("C06.terminal_history", quick=[dict(n=2)], thorough=[dict(n=2), dict(n=3)])
+@harness("C06.terminal_history", quick=[dict(n=2), dict(n=3)], thorough=[dict(n=2), dict(n=3), dict(n=4)])
 def terminal_history(ctx, n):
     """terminal() follows the kernel's tty number at every call of a history: n processes ask in turn, and between two calls a
     terminal device may appear (a pseudo-terminal opened later than psutil's first look at /dev) -- which process sits on which
@@ -181,10 +181,9 @@ def terminal_history(ctx, n):
                     k.files[DEV[d]] = ""
                     k.stats[DEV[d]] = simk.StatResult(0o020620, rdev=d)
                     present.add(d)
-            if ttys[i] != 0 and ttys[i] not in present:
-                continue              # a process cannot sit on a terminal that does not exist yet
+            # (a tty number whose device node is not visible yet -- e.g. a pseudo-terminal of another mount namespace -- has no path: None)
             got = ctx.guard("terminal-history", psutil.Process(70 + i).terminal)
-            ctx.prove(got == DEV.get(ttys[i]), "terminal-history", detail=f"call {i}: tty_nr {ttys[i]} -> {got!r}; devices that appeared after psutil's first look: {[DEV[d] for d in LATE if 0 < appears[d] <= i]}")
+            ctx.prove(got == (DEV.get(ttys[i]) if ttys[i] in present else None), "terminal-history", detail=f"call {i}: tty_nr {ttys[i]} -> {got!r}; devices that appeared after psutil's first look: {[DEV[d] for d in LATE if 0 < appears[d] <= i]}")
 
 
 @harness("C06.threads", quick=[dict(L=L, nthreads=2, witness=None) for L in (0, 1, 2, 4)] + [dict(L=0, nthreads=2, witness=i) for i in range(len(WITNESS_NAMES))]
